@@ -93,6 +93,18 @@ def realise(j, g, rng=None, cls=xgi.Hypergraph, shuffle=True, edge_id_map=None):
     return H
 
 
+def rewire_in_place(H, rng):
+    """a count-preserving edit on the same object (one node of one edge replaced by another node): whatever was
+    computed before must not be served again.  Returns True when an edit was made."""
+    cand = [(e, n, m) for e in H.edges for n in H._edge[e] for m in H.nodes if m not in H._edge[e]]
+    if not cand:
+        return False
+    e, n, m = rng.choice(cand)
+    H.remove_node_from_edge(e, n, remove_empty=False)
+    H.add_node_to_edge(e, m)
+    return True
+
+
 def edge_id_variants(j, rng):
     """relabellings of the edge ids inside the abstract universe: identity, a non-identity
     permutation of the same ids, gapped ids, string-like ids"""
